@@ -538,7 +538,14 @@ where
                     return Ok(());
                 }
             }
-            Err(StoreError::NotFound) => {}
+            Err(StoreError::NotFound) => {
+                // If the header is synced but not stored then it was pruned. Pruner
+                // removes the edge of a synced range only when it is outside of the
+                // sampling window, so we must not fetch anything below it.
+                if synced_ranges.contains(next_batch.end() + 1) {
+                    return Ok(());
+                }
+            }
             Err(e) => return Err(e.into()),
         }
 
@@ -1061,6 +1068,34 @@ mod tests {
 
         // Syncer is fully synced and awaiting for events
         p2p_mock.expect_no_cmd().await;
+    }
+
+    #[async_test]
+    async fn window_edge_pruned() {
+        let month_and_day_ago = Duration::from_secs(31 * 24 * 60 * 60);
+        let mut generator = ExtendedHeaderGenerator::new();
+        generator.set_time(
+            (Time::now() - month_and_day_ago).expect("to not underflow"),
+            Duration::from_secs(1),
+        );
+        let mut headers = generator.next_many(1200);
+        generator.reset_time();
+        headers.append(&mut generator.next_many(2049 - 1200));
+
+        let (syncer, store, mut p2p_mock) = initialized_syncer(headers[2048].clone()).await;
+
+        handle_session_batch(&mut p2p_mock, &headers, 1537..=2048, true).await;
+        handle_session_batch(&mut p2p_mock, &headers, 1025..=1536, true).await;
+        assert_syncing(&syncer, &store, &[1025..=2049], 2049).await;
+        p2p_mock.expect_no_cmd().await;
+
+        // Pruner removes the header that bounds the sampling window
+        store.remove_height(1025).await.unwrap();
+        syncer.trigger_fetch_next_batch().await.unwrap();
+
+        // Syncer should not request the headers below the pruned one
+        p2p_mock.expect_no_cmd().await;
+        assert_syncing(&syncer, &store, &[1026..=2049], 2049).await;
     }
 
     #[async_test]
